@@ -32,6 +32,8 @@ INERT = [w for w in _CAND_WORDS if _is_inert(w)]
 POOL_W = [w for w in INERT if w != "hm"][:int(os.environ.get("VQ_NWORDS", "2"))]
 NW = len(POOL_W)
 NTS = int(os.environ.get("VQ_NTS", "1"))
+_ELO, _EHI = int(os.environ.get("VQ_ELO", "0")), int(os.environ.get("VQ_EHI", "100"))
+EXPRS = EXPRS[_ELO:_EHI]
 NE = len(EXPRS)
 
 
